@@ -1,6 +1,7 @@
 package engine
 
 import (
+	"strings"
 	"bytes"
 	"encoding/json"
 	"fmt"
@@ -294,6 +295,16 @@ func genC06(r *core.Rand, run int) *MuxScenario {
 	if tr.proto == "http" && r.Chance(1, 2) {
 		sp.Fault.Err = "ueof" // HTTP/1.1: a broken body reads as io.ErrUnexpectedEOF
 	}
+	addZeroMessages(r, &sp)
+	// a deadline that passes after the handler has made progress: the handler
+	// sends its messages, outlives the grpc-timeout asleep, then returns; the
+	// client (still connected) must be given a final status all the same
+	if strings.HasPrefix(tr.proto, "grpc") && mi.ServerS && sp.Fault.Kind == "" && len(sp.Handler.Resps) > 0 && !sp.PingPong && r.Chance(1, 10) {
+		if last := sp.Handler.Steps[len(sp.Handler.Steps)-1]; last.Op == "sendall" || last.Op == "trailer" {
+			sp.Timeout = r.PickS("1S", "300m", "1500000u")
+			sp.Handler.Steps = append(sp.Handler.Steps, HStep{Op: "sleep", N: 2000})
+		}
+	}
 	if sp.Fault.Kind == "wbreak" {
 		sp.PingPong = false // a client that waits for answers which can no longer arrive would wait forever
 	}
@@ -459,6 +470,9 @@ func oracleStream(prop string, mr *muxRun, rs *reqState, cnt *[core.NumCounters]
 			if want := rs.expectedReq(i); !proto.Equal(got, want) {
 				return fail("recv-mismatch", "handler message #%d differs: got %s want %s", i, msgPreview(got), msgPreview(want))
 			}
+			if i < len(sp.Msgs) && sp.Msgs[i].Zero {
+				cnt[cEmptyMsg]++ // a message of zero bytes was delivered as a message
+			}
 		}
 		if recvFinished {
 			switch {
@@ -550,6 +564,9 @@ func oracleStream(prop string, mr *muxRun, rs *reqState, cnt *[core.NumCounters]
 			if !proto.Equal(got, want) {
 				return fail("response-mismatch", "client message #%d differs: got %s want %s", i, msgPreview(got), msgPreview(want))
 			}
+			if sp.Handler.Resps[i].Zero {
+				cnt[cEmptyMsg]++
+			}
 		}
 		wantMsgs := l.Sent
 		if viaBackend && !rs.method.ServerS && l.Returned && l.RetCode != codes.OK {
@@ -608,8 +625,14 @@ func oracleStream(prop string, mr *muxRun, rs *reqState, cnt *[core.NumCounters]
 			if !cv.StatusLast {
 				return fail("status-before-messages", "the final status did not come after the last message")
 			}
-			if cv.Status.Code != int(l.RetCode) || cv.Status.Message != l.RetMsg {
+			if sp.Timeout != "" && cv.Status.Code == int(codes.DeadlineExceeded) {
+				// the handler outlived the call's deadline: reporting that
+				// instead of what the handler returned afterwards is as good
+				cnt[cDeadlinePassedStatus]++
+			} else if cv.Status.Code != int(l.RetCode) || cv.Status.Message != l.RetMsg {
 				return fail("status-mismatch", "client saw status %d %q, handler returned %d %q", cv.Status.Code, cv.Status.Message, int(l.RetCode), l.RetMsg)
+			} else if sp.Timeout != "" {
+				cnt[cDeadlinePassedStatus]++
 			}
 		case "ws":
 			if cv.HTTPStatus == 101 {
